@@ -98,6 +98,42 @@ def conn_same(a, b):
     return core(a) == core(b)
 
 
+def write_error_set(ctx, Sh):
+    """The errors ClientConnection::write can return (shape analysis, refined by the path's test of the matched value)."""
+    facts = ctx.facts
+    fw = facts.fn(CC + "write")
+    ws = {("?" if s[1] == TOP else shape_s(s[1])) for s in Sh.return_set(fw) if s != TOP and s[0] == "Err"}
+    if not ws <= {"ConnectionError(InvalidWrite)"}:
+        # `Err(error @ ConnectionError::InvalidWrite) => Err(ServerError::ConnectionError(error))`: the bound value is the matched
+        # one; the shape analysis is not path-sensitive, so read the variant off the path's test of that very value
+        cd = facts.variant_discr("common::ConnectionError")
+        ws2 = set()
+        _, lw = leaves(ctx, CC + "write")
+        for lf in lw:
+            rk = ret_kind(lf)
+            if rk is None or rk[0] == "Ok":
+                continue
+            e = look(rk[1]) if rk[0] == "Err" else None
+            got = None
+            if e is not None and e[0] == "agg" and e[2] == "ConnectionError" and e[3]:
+                pl = look(e[3][0])
+                for (t, c, _b) in lf.conds:
+                    if t[0] == "discr" and norm(look(t[1])) == norm(pl):
+                        if c[0] == "eq":
+                            got = {cd.get(c[1])}
+                        elif c[0] == "ne":
+                            got = {n for k, n in cd.items() if k not in c[1]}
+                if pl[0] == "agg":
+                    got = {pl[2]}
+            if got is None or None in got:
+                ws2 = None
+                break
+            ws2 |= {"ConnectionError(%s)" % v for v in got}
+        if ws2 is not None:
+            ws = ws2
+    return ws
+
+
 def exits(ctx, write_guarded):
     facts = ctx.facts
     fn, lv = leaves(ctx, srv.REQUESTS, lower=True)    # closures given to and_then / or_else are part of what requests() does
@@ -173,6 +209,8 @@ def exits(ctx, write_guarded):
             "write(): InvalidWrite": {"ConnectionError(InvalidWrite)"},
             "handle_new_connection error": {"IOError(_)", "?", "ServerFull"},
         }[cause]
+        if cause == "write(): InvalidWrite":
+            names = write_error_set(ctx, Sh)
         ok = names <= allowed
         if cause == "write(): InvalidWrite":
             ctx.ob("R09.1", "exit|%s" % cause, ok and bool(write_guarded), "requests() propagates write()'s InvalidWrite: admissible only because R09.2 holds (%s)" % write_guarded, fn.loc(lf.bb))
@@ -190,7 +228,7 @@ def exits(ctx, write_guarded):
     rs = {("?" if s[1] == TOP else shape_s(s[1])) for s in Sh.return_set(fr) if s != TOP and s[0] == "Err"}
     ctx.ob("R09.1", "read|errors", rs <= {"Overflow"}, "ClientConnection::read can fail only with %s" % sorted(rs), fr.loc(0))
     fw = facts.fn(CC + "write")
-    ws = {("?" if s[1] == TOP else shape_s(s[1])) for s in Sh.return_set(fw) if s != TOP and s[0] == "Err"}
+    ws = write_error_set(ctx, Sh)
     ctx.ob("R09.1", "write|errors", ws <= {"ConnectionError(InvalidWrite)"}, "ClientConnection::write can fail only with %s" % sorted(ws), fw.loc(0))
     ctx.ob("R09.1", "floor", n >= 6, "%d error-exit paths of requests() classified (floor 6): %s" % (n, sorted(causes)), fn.loc(0))
     # respond(): errors
@@ -477,7 +515,8 @@ def failure_closes(ctx, rule):
             if poss is None:
                 continue
             var = "other:" + ",".join(sorted(poss))
-            closed = any(e[0] == "assign" and e[3] == "(*_1).state" and srv.state_const(facts, e[4]) == "Closed" for e in lf.events)
+            sts = [srv.state_const(facts, e[4]) for e in lf.events if e[0] == "assign" and e[3] == "(*_1).state"]
+            closed = bool(sts) and sts[-1] == "Closed"       # the state the connection is left in: a later assignment must not undo it
             names = var[6:].split(",") if var.startswith("other:") else [var]
             for nm in names:
                 if nm in closing:
